@@ -12,4 +12,5 @@ NEXT Next
 INVARIANT WireIsRaw
 INVARIANT EditsVisible
 INVARIANT RawIsLastSent
+INVARIANT NothingSentWhenRefused
 CHECK_DEADLOCK FALSE
